@@ -178,7 +178,10 @@ func c09Drivers(thorough bool) []*engine.HDriver {
 		}
 		return v
 	}
-	return []*engine.HDriver{regDriver("bindings", c09Alphabet(thorough), true, false, extra)}
+	// a local server feature of type Generic fits every requested type; the client has to fit the REQUESTED type
+	gen := []string{"bind:A:e1f1:L1gen:lc:d", "bind:B:e1f3:L1gen:ms:d", "bind:A:e1f3:L1gen:lc:d", "bind:A:e1f1:L1gen:gen:d", "bind:B:e1f4:L1gen:lc:d",
+		"unbind:A:e1f1:L1gen:d", "unbind:B:e1f3:L1gen:d", "bind:A:e1f1:L1lc:lc:d", "disc:A", "reconn:A"}
+	return []*engine.HDriver{regDriver("bindings", c09Alphabet(thorough), true, false, extra), regDriver("bindings-generic-server-feature", gen, true, false, extra)}
 }
 
 func init() {
